@@ -259,6 +259,9 @@ def create_for_folder_subcommand(
                         break
                 else:
                     new_paths.add(file_path)
+            if not existing_history.hash_lists:
+                # a root folder that has not been sealed yet (only histories further in exist) knows no path at all
+                new_paths.add(file_path)
             if is_dir:
                 if not no_directory_hashes:
                     path_content_hash_lookup = dir_content_hash_mapping_lookup.pop(file_path)
